@@ -203,6 +203,8 @@ struct Lifter<'a> {
     observe: Option<String>,
     /// L17c: number of lifted calls per callee so far (evaluation order)
     calls_seen: HashMap<String, usize>,
+    /// L17e: declared types of loop variables (`loopvars=s:L_State;i:int`)
+    loopvars: HashMap<String, String>,
     /// observables shared with the main function: binding name -> opaque spec fn to call instead of inlining
     shared: HashMap<String, String>,
     rebound_params: Vec<String>,
@@ -1107,6 +1109,49 @@ impl<'a> Lifter<'a> {
                     Expr::Loop(l) => &l.body,
                     _ => unreachable!(),
                 };
+                // L17e: a call-argument observable inside a `for` loop: the body is lifted once for an arbitrary
+                // element (loop variables declared with `loopvars=name:Type;..` become uninterpreted functions of the
+                // inputs); what is observed then holds for every iteration
+                if let (Expr::ForLoop(f), Some(obs)) = (e, self.observe.clone()) {
+                    if obs.starts_with('@') && !self.loopvars.is_empty() {
+                        let mut names = Vec::new();
+                        struct PI<'a>(&'a mut Vec<String>);
+                        impl<'ast, 'a> syn::visit::Visit<'ast> for PI<'a> {
+                            fn visit_pat_ident(&mut self, i: &'ast syn::PatIdent) {
+                                self.0.push(i.ident.to_string());
+                            }
+                        }
+                        syn::visit::Visit::visit_pat(&mut PI(&mut names), &f.pat);
+                        if names.iter().all(|n| self.loopvars.contains_key(n)) {
+                            let plist: Vec<String> = self.params.iter().map(|(n, _)| n.clone()).collect();
+                            let mut pre = String::from("{ ");
+                            self.env.push(HashMap::new());
+                            for n in &names {
+                                let ty = self.loopvars[n].clone();
+                                let hname = format!("{}__loopvar_{n}", self.fn_name);
+                                let decl = format!(
+                                    "pub uninterp spec fn {hname}({}) -> {ty};",
+                                    self.params.iter().map(|(n, t)| format!("{n}: {t}")).collect::<Vec<_>>().join(", ")
+                                );
+                                if !self.havocs.contains(&decl) {
+                                    self.havocs.push(decl);
+                                }
+                                self.bind(n, &ty);
+                                pre.push_str(&format!("let {n} = {hname}({}); ", plist.join(", ")));
+                            }
+                            let saved_out = self.out_param.take();
+                            let b = self.stmts_with_cont(&f.body.stmts, None);
+                            self.out_param = saved_out;
+                            self.env.pop();
+                            if let Ok(b) = b {
+                                if b.text.contains("let cap__ =") {
+                                    self.note("L17e", e.span(), "observable captured inside a loop body (arbitrary iteration)");
+                                    return Ok(v(format!("{pre}{} }}", b.text), &b.ty));
+                                }
+                            }
+                        }
+                    }
+                }
                 if Self::contains_return(e) {
                     return unsupported("loop containing return (L6 havoc would drop a control transfer)", &"loop");
                 }
@@ -2045,6 +2090,7 @@ pub fn lift_fn(ctx: &mut Ctx, blk: &Block) -> Result<(String, Value), String> {
             out_param: out_param.clone(),
             observe: observe.clone(),
             calls_seen: HashMap::new(),
+            loopvars: blk.opt("loopvars").map(|t| t.split(';').filter_map(|kv| kv.split_once(':').map(|(a, b)| (a.trim().to_string(), b.trim().to_string()))).collect()).unwrap_or_default(),
             shared: if blk.flag("share_observed") { outputs.iter().filter_map(|(n, o)| o.clone().map(|o| (o, n.clone()))).collect() } else { HashMap::new() },
             rebound_params: vec![],
             in_value: 0,
